@@ -16,6 +16,23 @@ the single segment `segw = [StrWidth(str)]`, and the clauses below are then lite
                 the same for `C` with `segw1`, `1`, `lh1`
 * `translate`   `B` is `A` moved by `(dx,dy)` (lines after the first: by `(0,dy)` — their cursor column is 0 by command)
 * `scale`       `A` is `C` with every pixel enlarged to `h × v` about the cursor of its line
+
+**The recorded deviation `scale.spacing`** (finding C20.scale_with_spacing).  With extra character spacing `s > 0`, size
+`h > 1` and at least two glyphs on a line the code advances the cursor by `h·w + s` after a glyph of width `w`, not by
+`h·(w + s)`, so the `scale` clause is false of it.  A failure of `scale` in that class is *excused* only when the rendering
+is exactly what that documented rule gives: with `cws` = the glyph widths the implementation reports (`GetCharWidth`, the
+characters of each line other than CR, which is neither drawn nor advanced over), glyph `n` of a line starts at
+`x + Σ_{m<n} (h·w_m + s)` in `A` and at `x + Σ_{m<n} (w_m + s)` in `C`; every glyph cell `[origin, origin + h·w_n)` of `A`
+must be the cell of `C` enlarged exactly `h × v`, and everything between and after the cells must be blank (`scaleDevOk`).
+Only the horizontal offsets between the glyphs are excused; a wrong glyph, a wrong vertical scale or ink in a gap in
+that class is a plain `scale` violation.
+
+**Stateful use.**  The clauses speak about a rendering "with a font, mode, spacing and size"; how the object got there (the
+order of the setter calls, earlier texts, re-creation of the canvas, metric queries in between) is not part of them.  A
+`Case` may therefore come from any call history on one image object: `A`, `B`, `C` are the renderings of three objects
+with the same history, and the metrics are the ones the object reports in that state.  A direct `DrawChar(x, y, c, …, h, v)`
+is the one-glyph case with cursor `(x,y)`, size `(h,v)` taken from the **arguments**, width `h·GetCharWidth(c)` (no
+trailing advance: `segw = h·w − h`) and height `v ×` the cell height (`LineHeight()` at size 1).
 -/
 namespace RawPanelVerif.Spec.Text
 
@@ -35,6 +52,7 @@ structure Case where
   segw1 : List Int
   spacing : Nat
   glyphs : Nat     -- largest number of characters other than CR on one line
+  cws : List (List Int) := []   -- per line: reported `GetCharWidth` of its characters other than CR
 deriving Repr
 
 def bitAt (wib : Nat) (bytes : Array UInt8) (X Y : Int) : Bool :=
@@ -100,6 +118,29 @@ def scaleOk (k : Case) (A C : Array UInt8) : Bool :=
 /-- the recorded genuine finding: with extra character spacing the advance is `h·w + s`, not `h·(w+s)` -/
 def knownSpacingClass (k : Case) : Bool := k.spacing > 0 && k.h > 1 && k.glyphs ≥ 2
 
+/-- the size-1 column that column `X` of the enlarged line shows under the documented advance rule: glyphs of widths `ws`,
+the current one starting at `oA` in the enlarged rendering and at `oC` at size 1; `none` = `X` lies in no glyph cell
+(left of the line, in the spacing between two glyphs, or right of the last one) -/
+def devSource (h s : Int) : List Int → Int → Int → Int → Option Int
+  | [], _, _, _ => none
+  | w :: ws, oA, oC, X =>
+    if X < oA then none
+    else if X < oA + h * w then some (oC + (X - oA) / h)
+    else devSource h s ws (oA + h * w + s) (oC + w + s) X
+
+/-- `A` is what the documented deviation gives: every glyph cell of `C` enlarged `h × v` at the origin the advance
+`h·w + s` puts it, nothing else lit -/
+def scaleDevOk (k : Case) (A C : Array UInt8) : Bool :=
+  (allPixels k).all (fun p =>
+    match lineIdx k.cy k.lh k.segw.length p.2 with
+    | none => !bitAt k.wib A p.1 p.2
+    | some i =>
+      let x0 := lineX k.cx i
+      let jj := p.2 - (k.cy + i * k.lh)
+      match devSource k.h k.spacing (k.cws.getD i []) x0 x0 p.1 with
+      | none => !bitAt k.wib A p.1 p.2
+      | some xc => bitAt k.wib A p.1 p.2 == bitAt k.wib C xc (k.cy + i * k.lh1 + jj / k.v))
+
 /-- every line box with cursor `(cx,cy)` lies on the canvas ("a canvas large enough not to clip") -/
 def boxesFit (k : Case) (cx cy h lh : Int) (segw : List Int) : Bool :=
   decide (0 ≤ cx ∧ 0 ≤ cy ∧ 0 < lh ∧ cy + segw.length * lh ≤ k.H) &&
@@ -116,7 +157,7 @@ def check (k : Case) (A B C : Array UInt8) : Option String :=
   else if !boxOk1 k C then some "box1"
   else if !unclipped k then none
   else if !translateOk k A B then some "translate"
-  else if !scaleOk k A C then some (if knownSpacingClass k then "scale.spacing" else "scale")
+  else if !scaleOk k A C then some (if knownSpacingClass k && scaleDevOk k A C then "scale.spacing" else "scale")
   else none
 
 end RawPanelVerif.Spec.Text
